@@ -130,6 +130,21 @@ Theorem C08_run_order_reachable : forall cfg fuel order, reach cfg (run_order cf
 Proof. exact run_order_init_reach. Qed.
 Print Assumptions C08_run_order_reachable.
 
+(* what Compile returns, modelled as: the root handler's Error() when it is not nil, otherwise the first
+   error among the requested files' tasks (failures that were never given to the reporter).  Whatever the
+   task errors are and in whatever order the files were requested: accepted errors give ErrInvalidSource, a
+   latched reporter error is returned as it is, Compile succeeds only if no HandleError call passed the root
+   and no task failed, and when nothing was handled the result is the first task error *)
+Theorem C08_compile_final : forall cfg sched task_errs,
+  let s := run cfg sched (init cfg) in
+  (1 <= ncalls s -> plain_seen s = false -> (forall tag e, ~ In (CErr tag (Some e)) (rlog s)) ->
+     compile_final s task_errs = Some EInvalidSource) /\
+  (forall e, root_err s = Some e -> compile_final s task_errs = Some e) /\
+  (compile_final s task_errs = None -> handled s = 0 /\ forall x, In x task_errs -> x = None) /\
+  (handled s = 0 -> compile_final s task_errs = first_some task_errs).
+Proof. exact compile_final_lemma. Qed.
+Print Assumptions C08_compile_final.
+
 (* non-vacuity: two threads on two sub-handlers, reporter aborting at the second call.  Thread 1 is
    scheduled into the reporter first; while it is inside, thread 0 cannot pass the lock.  In the final
    state the second call latched ERep 2, the third error never reached the reporter, every later call
